@@ -109,6 +109,9 @@ def run(ctx):
     ctx.section(_key_provenance, ctx, index, funcs)
     ctx.section(_fields, ctx, index)
     ctx.section(_receiver, ctx, index)
+    from ..keystate import stale_rule
+
+    ctx.section(stale_rule, ctx, "C14.stale", funcs, "the normalisation of the parameter entry")
 
 
 def _entries(ctx, index, funcs):
